@@ -421,8 +421,12 @@ pub fn check(sc: &Scenario, out: &RunOutput) -> OracleResult {
                                 let no_ack_between = last_new_ack_t <= rto_tx[rto_tx.len() - 2];
                                 if no_ack_between && g1 >= 200 * MS {
                                     let want = (2 * g1).min(60_000 * MS);
-                                    // timers fire on the 1 ms wheel; RTO values are not whole ms
-                                    if g2 + 3 * MS < want || g2 > want + 3 * MS {
+                                    // timers fire on the 1 ms wheel; RTO values are not whole ms;
+                                    // a send refused by a full socket is repeated a millisecond
+                                    // later (each refusal shifts one emission, and so two gaps)
+                                    let refused = w.h.evs.iter().filter(|(ts, ev)| *ts + MS >= rto_tx[rto_tx.len() - 2] && *ts <= t && matches!(ev, crate::hist::Ev::SendFail { kind, .. } if *kind == "pending")).count() as u64;
+                                    let tol = (3 + 3 * refused) * MS;
+                                    if g2 + tol < want || g2 > want + tol {
                                         res.violate(P, "backoff-not-doubling", t, format!("seq {}: successive timeout gaps {} ms then {} ms (expected {} ms)", p.seq, g1 / MS, g2 / MS, want / MS));
                                     }
                                 }
